@@ -67,6 +67,16 @@ def run(res, tier, seed, shard, nshards):
                     ti += 1
                     if ti % nshards == shard:
                         close_timing_case(res, W, sock_to, close_to, peer)
+        # the transport fails in the middle of the client's own close frame (a few bytes accepted, then a timeout / reset / I/O
+        # error): whatever is called next, close() does not start a second close frame, and it releases the transport
+        wi = 0
+        for api in ("send_close", "close", "recv-reply"):
+            for k in (1, 2, 3, 5, 7):
+                for err in ("timeout", "reset", "eio"):
+                    for nolock in (False, True):
+                        wi += 1
+                        if wi % nshards == shard:
+                            write_failure_case(res, W, rng, api, k, err, nolock)
         # statuses and reasons for R5
         if shard == 0:
             for status in (-1, 0, 999, 1000, 1001, 3000, 4999, 65535, 65536, 1 << 20):
@@ -271,6 +281,84 @@ def history_case(res, W, rng, hist, mode, exhaustive):
         elif exc is not None and not isinstance(exc, (W.WebSocketException, OSError, ValueError)):
             bad("internal-exception", i, f"{ename}: {exc}", got=ename)
     res.sample(case, cap=3) if nontrivial else None
+
+
+def write_failure_case(res, W, rng, api, k, err, nolock):
+    import errno
+    import socket as _socket
+    so, conn = net.pair()
+    hs = H.HandshakePeer(conn)
+    w = W.WebSocket(enable_multithread=not nolock)
+    so.settimeout(1)
+    w.sock_opt.timeout = 1
+    w.connect("ws://sim.test/", socket=so)
+    e = {"timeout": lambda: _socket.timeout("timed out"), "reset": lambda: ConnectionResetError(errno.ECONNRESET, "Connection reset by peer"),
+         "eio": lambda: OSError(errno.EIO, "Input/output error")}[err]()
+
+    def plan():
+        conn.send_error = e  # consulted at the start of the *next* write
+        yield k
+
+    case = {"gen": "write-failure", "api": api, "accepted": k, "error": err, "enable_multithread": not nolock}
+    res.case(("wf", api, k, err, nolock), nontrivial=True)
+    if api == "recv-reply":
+        conn.deliver(R.encode(R.CLOSE, b"\x03\xe8"))
+    conn.write_plan = plan()
+    before = len(hs.client_stream)
+    first_exc = None
+    try:
+        if api == "send_close":
+            w.send_close(1000, b"going away")
+        elif api == "close":
+            w.close(1000, b"going away", timeout=1)
+        else:
+            w.recv()
+    except BaseException as x:  # noqa
+        if isinstance(x, (KeyboardInterrupt, sched.SimAbort)):
+            raise
+        first_exc = x
+    partial = bytes(hs.client_stream[before:])
+    if len(partial) != k:
+        res.count("write_failure_not_partial")
+        return  # the injection did not land inside the close frame (nothing to judge)
+    res.count("mid_close_frame_write_failures")
+    if first_exc is not None and not isinstance(first_exc, (W.WebSocketException, OSError)):
+        res.violation("internal-exception", f"write failure ({err}) after {k} bytes of the close frame under {api}: {type(first_exc).__name__}: {first_exc}", case, step_call=api,
+                      got=type(first_exc).__name__)
+        return
+    # whatever the application does next ends with close()
+    follow = rng.choice([("close",), ("recv", "close"), ("ping", "close"), ("close", "close")])
+    conn.write_plan = None
+    for sym in follow:
+        mark = len(hs.client_stream)
+        exc = None
+        try:
+            if sym == "close":
+                w.close(timeout=1)
+            elif sym == "recv":
+                w.recv()
+            else:
+                w.ping(b"x")
+        except BaseException as x:  # noqa
+            if isinstance(x, (KeyboardInterrupt, sched.SimAbort)):
+                raise
+            exc = x
+        wrote = bytes(hs.client_stream[mark:])
+        if sym == "close":
+            if wrote:
+                res.violation("second-own-close-frame", f"the transport failed ({err}) after {k} bytes of the client's close frame under {api}; a later close() wrote "
+                              f"{len(wrote)} more bytes ({wrote[:6].hex()}): a second close frame started on this connection", case, step_call=api, via="close-after-failed-write")
+                return
+            if exc is not None:
+                res.violation("close-raised", f"close() after a failed close-frame write ({err}, {api}): {type(exc).__name__}: {exc}", case, step_call=api, got=type(exc).__name__)
+                return
+            if not conn.client_closed or w.connected:
+                res.violation("transport-not-released", f"close() after a failed close-frame write ({err}, {api}) left the transport open (connected={w.connected})", case,
+                              step_call=api, via="close-after-failed-write", prior="failed-own-close")
+                return
+        elif exc is not None and not isinstance(exc, (W.WebSocketException, OSError)):
+            res.violation("internal-exception", f"{sym} after a failed close-frame write: {type(exc).__name__}: {exc}", case, step_call=sym, got=type(exc).__name__)
+            return
 
 
 def encoding_case(res, W, rng, api, status, rl):
